@@ -61,6 +61,9 @@ Definition third (t : Z * Z * Z) : Z := snd t.
            the whole read return Err (o_err); otherwise the unloaded table over all entries (kind 3)
    kind 10: MinidumpMemoryList::read (descriptors the region reader rejects are skipped; tags = positions in the stream)
    kind 11: MinidumpMemory64List::read (o_err when a region runs past the file image; else kind 1)
+   kind 12: MinidumpLinuxMaps::read on a text whose address fields are written in the forms from_str_radix accepts (tag 0:
+           lower-case hex, tag 1: '+', upper case, leading zeros) or do not fit a u64 (tag 2: 17 hex digits): the third-party
+           line parser fails on the latter and the whole read is Err (o_err); otherwise kind 2
    kind 7: STACK WIN records of one type (frame data or FPO), file order: insert_win_stack_info for each, then the
            parser-local builder; a table entry / lookup answer is the record as stored: [tag; address; size] *)
 Definition run_win (p : profile) (ents : list (Z * Z * Z)) (qs : list Z) : c08_out :=
@@ -100,6 +103,10 @@ Definition run_case (kind : Z) (ents : list (Z * Z * Z)) (qs : list Z) : c08_out
     if mem64_ok ALL_LEN MEM64_BASE_RVA (map (fun e => let '(b, s, _) := e in s) ents) then
       pack (fun v => v) qs (build_indexed (map (fun e => let '(b, s, _) := e in mk_range b s) ents))
     else {| o_panic := false; o_err := true; o_table := []; o_gets := [] |}
+  else if kind =? 12 then
+    if existsb (fun e => let '(_, _, v) := e in v =? 2) ents
+    then {| o_panic := false; o_err := true; o_table := []; o_gets := [] |}
+    else pack (fun v => v) qs (build_indexed (map (fun e => let '(b, s, _) := e in mk_range_maps b s) ents))
   else if kind =? 4 then
     pack third qs (build_p triple_eqb
       (drop_none (map (fun e => let '(b, s, v) := e in (mk_range b s, e)) ents)))
